@@ -10,7 +10,7 @@ From TLV Require Import Base.Ops Model.Prox Proofs.ProxProofs Proofs.ProxProofsH
   Proofs.ProxProofsMore Proofs.ProxProofsMatrix Proofs.ProxProofsRun Proofs.ProxRunTransfer
   Base.RSum Proofs.ProxProofsSvt Proofs.ProxProofsSvtList Proofs.ProxProofsFirm2 Proofs.ProxProofsRunIdem Proofs.ProxProofsRunFirm
   Proofs.ConstraintsProofsUni Proofs.ProxProofsIdem2 Proofs.ProxProofsSvtPerturb Proofs.ProxProofsSmoothNd
-  Model.ProxSvtGap Proofs.ProxProofsSvtGap Proofs.ProxSvtGapTransfer Proofs.ProxProofsTapeCert.
+  Model.ProxSvtGap Proofs.ProxProofsSvtGap Proofs.ProxSvtGapTransfer Proofs.ProxProofsTapeCert Proofs.ProxProofsProcrustesGap.
 Import ListNotations.
 Open Scope R_scope.
 
@@ -618,6 +618,35 @@ Theorem C12_svt_case_certified : forall (m n k : nat) (U : list (list Q)) (s : l
 Proof. exact svt_case_certified. Qed.
 Print Assumptions C12_svt_case_certified.
 
+(* ---- round 7: procrustes WITHOUT the exact contract of the SVD oracle.  C12_procrustes_perturbed (index functions): for singular vectors orthonormal to
+   within e entrywise, s >= 0, ANY M and any weight d > 0, every Q with orthonormal columns or rows has
+     <Q, M> <= (1 + e) sum s + (d max(m, n) + |M - U diag(s) V|_F^2 / d) / 2;
+   C12_procrustes_gap_sound (list model) and C12_procrustes_case_certified (per-case certificate from the Boolean Corr/C12.procrustes_case_ok the correspondence
+   evaluates): <Q, M> <= <U V, M> + procrustes_gap, the maximisation clause of C12_procrustes_max up to a rational number computed from the recorded answer
+   (required <= 1e-7 sum s per case).  Feasibility of U V (orthonormal columns / rows) under the approximate contract is not proved (tested: Gram matrix of the
+   implementation's output within 1e-9 of the identity). *)
+Theorem C12_procrustes_perturbed : forall (m n k : nat) (U V : nat -> nat -> R) (s : nat -> R) (e : R),
+  aocols m k e U -> aocols n k e (fun j l => V l j) -> (forall l, (l < k)%nat -> 0 <= s l) ->
+  forall (M Q : nat -> nat -> R) (d : R), 0 < d -> ocols m n Q \/ ocols n m (fun j i => Q i j) ->
+  frob m n Q M <= (1 + e) * rsum k s + (d * INR (Nat.max m n) + fro2f m n M (compose k U s V) / d) / 2.
+Proof. exact procrustes_perturbed. Qed.
+Print Assumptions C12_procrustes_perturbed.
+Theorem C12_procrustes_gap_sound : forall (m n k : nat) (U : list (list R)) (s : list R) (V M : list (list R)) (e d : R),
+  (1 <= m)%nat -> (1 <= k)%nat -> rect m k U -> length s = k -> rect k n V -> rect m n M ->
+  aocols m k e (mfun U) -> aocols n k e (fun j l => mfun V l j) -> Forall (fun x => 0 <= x) s -> 0 < d ->
+  forall Q : nat -> nat -> R, ocols m n Q \/ ocols n m (fun j i => Q i j) ->
+  frob m n Q (mfun M) <= frob m n (mfun (procrustes_with Rops U V)) (mfun M) + procrustes_gap Rops e d U s V M.
+Proof. exact procrustes_gap_sound. Qed.
+Print Assumptions C12_procrustes_gap_sound.
+Theorem C12_procrustes_case_certified : forall (m n k : nat) (U : list (list Q)) (s : list Q) (V M : list (list Q)) (d : Q),
+  C12.procrustes_case_ok m n k U s V M d = true ->
+  forall Qm : nat -> nat -> R, ocols m n Qm \/ ocols n m (fun j i => Qm i j) ->
+  frob m n Qm (mfun (map (map Q2R) M))
+  <= frob m n (mfun (map (map Q2R) (procrustes_with Qops U V))) (mfun (map (map Q2R) M))
+     + Q2R (procrustes_gap Qops (1 # 1000000000) d U s V M).
+Proof. exact procrustes_case_certified. Qed.
+Print Assumptions C12_procrustes_case_certified.
+
 (* ---- round 7: smoothness_prox / proximal_operator(smoothness=t) on a tensor with three or more dimensions, the code as it is
    (Model/ProxDispatch.smooth_nd: NumPy's stacked solve of the shape[0] x shape[0] system against the shape[-2] x shape[-1] slices): the call raises
    exactly when shape[-2] <> shape[0]; otherwise the result is, slice by slice and column by column, the solution of the coded tridiagonal system and
@@ -764,3 +793,8 @@ Example C12_nonvacuous_svt_case :
   C12.svt_case_ok 2 2 2 [[1; 0]; [0; 1]]%Q [3; 1]%Q [[0; 1]; [1; 0]]%Q [[0; 3]; [1; 0]]%Q 2%Q = true /\
   C12.svt_case_ok 2 2 2 [[1; (1 # 100)]; [0; 1]]%Q [3; 1]%Q [[0; 1]; [1; 0]]%Q [[0; 3]; [1; 0]]%Q 2%Q = false.
 Proof. split; vm_compute; reflexivity. Qed.
+Example C12_nonvacuous_procrustes_case :
+  C12.procrustes_case_ok 2 2 2 [[1; 0]; [0; 1]]%Q [3; 1]%Q [[0; 1]; [1; 0]]%Q [[0; 3]; [1; 0]]%Q (1 # 1000000000) = true /\
+  C12.procrustes_gap_ok [[1; 0]; [0; 1]]%Q [3; 1]%Q [[0; 1]; [1; 0]]%Q [[0; 3]; [1; 0]]%Q = true /\
+  C12.procrustes_gap_ok [[1; 0]; [0; 1]]%Q [3; 1]%Q [[0; 1]; [1; 0]]%Q [[0; 3]; [(9 # 10); 0]]%Q = false.
+Proof. repeat split; vm_compute; reflexivity. Qed.
